@@ -3,6 +3,7 @@
  */
 
 #include <stdlib.h>
+#include <ctype.h>
 #include <string.h>
 #include <limits.h>
 
@@ -211,17 +212,29 @@ extern MPT_INTERFACE(metatype) *mpt_iterator_poly(const char *desc, const _MPT_A
 	}
 	/* variable shift */
 	ns = 0;
-	if (nc && (desc = strchr(desc, ':'))) {
-		int max = nc - 1;
-		++desc;
-		while (ns < max) {
-			ssize_t len = mpt_cdouble(&coeff[ns].shift, desc, 0);
-			
-			if (len <= 0) {
-				break;
+	if (nc) {
+		while (isspace(*desc)) ++desc;
+		if (*desc == ':') {
+			int max = nc - 1;
+			++desc;
+			while (ns < max) {
+				ssize_t len = mpt_cdouble(&coeff[ns].shift, desc, 0);
+				
+				if (len <= 0) {
+					break;
+				}
+				desc += len;
+				++ns;
 			}
-			desc += len;
-			++ns;
+			while (isspace(*desc)) ++desc;
+		}
+		/* further coefficients, shifts or other text: not a polynom description */
+		if (*desc) {
+			if (buf) {
+				buf->_vptr->unref(buf);
+			}
+			errno = EINVAL;
+			return 0;
 		}
 	}
 	for ( ; ns < nc; ++ns) {
